@@ -82,7 +82,15 @@ class StructuredCodeGenerator:
                         gen=repr(type(self)),
                         inst=type(inst).__name__))
 
-        return method(inst)
+        condition = getattr(inst, "condition", True)
+        if condition is True:
+            return method(inst)
+
+        # A statement may carry its own guard (for instance the assignments
+        # that expand_IfThenElse makes of a conditional expression).
+        self.emit_if_begin(condition)
+        method(inst)
+        self.emit_if_end()
 
     # Emit routines (to be implemented by subclass, in addition to emit_inst_)
 
